@@ -285,8 +285,10 @@ def run(ck):
                                    'elastic networks, while one ITP -- the first molecule\'s -- is written for that name'),
     }
     if name_calls:
-        named_at = min(n.lineno for n in name_calls)
-        runs = [c for c in walk_local(ent) if isinstance(c, ast.Call) and call_attr(c) == 'run_system' and c.lineno > named_at]
+        from ..util import runs_after
+        runs = [c for c in walk_local(ent) if isinstance(c, ast.Call) and call_attr(c) == 'run_system' and c not in name_calls and
+                not any(c is n.func.value or any(x is n for x in ast.walk(c)) for n in name_calls) and
+                any(runs_after(ent, cli.stmt_of(n), cli.stmt_of(c)) for n in name_calls)]
         for c in runs:
             recv = c.func.value
             cls_ = recv
